@@ -13,7 +13,14 @@ Complete small-scope input enumeration on the real functions:
   T  the three distance transformations : every sequence that is a front (mutually
      non-dominated under the sign vector; duplicates allowed) x every sign vector x every
      non-negative non-zero preference vector, against the geometric definition in Fractions,
-     plus translation of the front.
+     plus an exactly representable scaling + translation of the front (offsets up to 2^30,
+     spreads down to 2^-20) and a dtype / layout alphabet crossed over all three arguments.
+  M  the predicate as USED by the memetic operator: hillclimb() of
+     MultiObjectiveStochasticHillClimberMutation (the only caller of dominates()) on tiny subset
+     problems (n <= 5, k <= 2; no constraints / G / H / G+H with all 0-1 element violation
+     vectors) under every answer vector of numpy.random.choice, with dominates() wrapped:
+     every (objectives, violation) pair it receives must be a visited candidate's OWN evaluation
+     and the returned leader must not be dominated by any visited candidate.
 """
 from __future__ import annotations
 import itertools, math
@@ -34,7 +41,8 @@ ID = "C19"
 TECHNIQUE = ("complete small-scope input enumeration (every point sequence over a value grid x every weight / sign / "
              "preference / constraint-violation vector) on the real functions against an O(n^2) dominance definition "
              "and a Fraction-exact geometric definition, with explicit order / rescaling / translation metamorphic comparisons, an "
-             "inputs-untouched oracle on every array argument and short call histories on one caller-owned array")
+             "inputs-untouched oracle on every array argument and short call histories on one caller-owned array; stateless enumeration of "
+             "every numpy.random.choice answer for the memetic hill-climber with dominates() intercepted")
 RULE = ("F: one case = (point sequence, weight vector) run as a call history on ONE caller-owned point matrix (input form rotating "
         "over float64 C-order / int64 or float32 / Fortran order / non-contiguous view) and one weight array: mask form, index form, "
         "and on the first order of every multiset the mask form again under positively rescaled weights; after every call the "
@@ -44,7 +52,9 @@ RULE = ("F: one case = (point sequence, weight vector) run as a call history on 
         "(grid, sequence); quick tier only: 3-objective fronts of >= 3 points go through the transformations in sorted and reversed "
         "order only. D: one case = (obj1, cv1, obj2, cv2), all pairs; triples through the pair table. "
         "T: one case = (front sequence, sign vector, preference vector) run through all three implementations, plain and "
-        "translated; non-trivial = at least two distinct points. states = distinct (layer, grid, sequence[, sign]) configurations; "
+        "transformed (scale, translation rotating over 8 exactly representable pairs; argument dtype/layout combination rotating over 8, "
+        "incl. all-int64 and all-int32); non-trivial = at least two distinct points. M: one execution = (n, k, constraint mode, element "
+        "violation vectors g, h, start chromosome, answer vector of numpy.random.choice) through hillclimb(). states = distinct (layer, grid, sequence[, sign]) configurations; "
         "transitions = real function calls; traces = cases whose every observation agreed with the reference")
 ASSUME = ["point coordinates, weights, preference components and translations are small dyadic rationals, so the float inputs "
           "are exact and the Fraction reference sees the same numbers",
@@ -58,6 +68,9 @@ ASSUME = ["point coordinates, weights, preference components and translations ar
           "integer, float32, Fortran-ordered and non-contiguous point matrices are valid numpy.ndarray arguments; a function of this "
           "family must not modify any array the caller passed in (points, weights, signs, preference vector) — mask/index agreement, "
           "repeatability and rescaling invariance of the property are stated about the caller's array, which must therefore survive a call",
+          "a caller who passes a float32 array gets single-precision answers (tolerance 4e-6 then); all other forms 1e-9",
+          "layer M: numpy.random.choice(m) may return any of range(m) (all enumerated); a candidate's total violation is sum(G) + sum(H) "
+          "as the operator computes it, with G, H >= 0 in the harness problems; dominates() is intercepted by rebinding the module global",
           "mc/compat.py restores removed numpy names only"]
 
 # ---------------------------------------------------------------------------- alphabets (VERIF_SEED rotates values only)
@@ -67,6 +80,16 @@ MAGS = [(1, 2), (1, 3), (0.5, 2)]
 PREFS = [(0, 1, 2), (0, 1, 3), (0, 0.5, 2)]
 CVS = [(-1, 0, 1, 2), (-0.5, 0, 0.25, 3), (-2, 0, 1, 1.5)]
 TRANSL = [(5, -3, 7), (-2.5, 0.25, 1)]
+# (scale, translation) of a front: min-max scaling makes the distances invariant under every one of them.  All values are
+# exactly representable together with the grid values, so the transformed front is exact and "constant objective" stays an
+# exact notion (all values equal).  Large offsets relative to the spread (unit front moved by 2^20 / 2^30; front shrunk to
+# 2^-20 and moved by 1 or 2^10) expose any tolerance-based "is this objective constant" test.
+TRANSF = [(1, (5, -3, 7)), (1, (-2.5, 0.25, 1)), (1, (2 ** 10, -2 ** 10, 2 ** 10)), (1, (2 ** 20, 2 ** 20, -2 ** 20)),
+          (1, (-2 ** 30, 2 ** 20, 2 ** 30)), (2.0 ** -20, (0, 0, 0)), (2.0 ** -20, (1, -1, 1)), (2.0 ** -20, (2 ** 10, 0, -2 ** 10))]
+# argument dtype / layout combinations (points / sign-or-objective weights / preference vector); integer forms fall back to
+# float32 for an array that holds a non-integral value, so the all-integer combination occurs in every seed
+ARGFORMS = [("f8C", "f8", "f8"), ("i8", "i8", "i8"), ("f8F", "i4", "f4"), ("f8view", "f8", "i8"),
+            ("i4", "i4", "i4"), ("f4", "f4", "f4"), ("i8", "f8", "i8"), ("f8C", "i8", "f8")]
 
 IMPLS = {
     "core.util.trans.trans_ndpt_pseudo_dist": trans_ndpt_pseudo_dist,
@@ -173,6 +196,9 @@ def _plan(tier):
 def shards(tier, seed):
     F, Tl = _plan(tier)
     out = [("D", 2), ("D", 3)]
+    for n, k in ((3, 1), (3, 2), (4, 1), (4, 2), (5, 1), (5, 2)):
+        for mode in ("", "G", "H", "GH"):
+            out.append(("M", n, k, mode))
     for gname, n, wset in F:
         G = Grid.get(gname, seed)
         nw = sum(len(g) for g in weight_sets(G.k, seed)[wset])
@@ -209,7 +235,21 @@ class W:
         self.canon = [min(b for b in range(G.base) if self.GE[a][b] and self.GE[b][a]) for a in range(G.base)]
 
 
-FORMS = ("f8C", "alt", "f8F", "f8view")      # "alt" = int64 when the grid is integral, float32 otherwise
+FORMS = ("f8C", "i8", "f8F", "f8view", "i4", "f4")      # point-matrix forms of the filter layer
+WFORMS = ("f8", "i8", "f4", "i4")                          # weight / sign / preference / objective vector forms
+
+
+def _integral(a):
+    return bool(numpy.all(a == numpy.round(a)))
+
+
+def vec_form(pristine, form):
+    """A caller-owned copy of a float64 array in the given dtype (integer forms fall back to float32 when a value is
+    not integral; every value used is exactly representable in float32)."""
+    dt = {"f8": "float64", "f4": "float32", "i8": "int64", "i4": "int32"}[form]
+    if dt.startswith("int") and not _integral(pristine):
+        dt = "float32"
+    return pristine.astype(dt)
 
 
 def make_form(G, pristine, form):
@@ -223,9 +263,7 @@ def make_form(G, pristine, form):
         big = numpy.full((2 * n, k + 1), 7.5)
         big[::2, :k] = pristine
         return big[::2, :k]
-    if all(float(v) == int(v) for v in G.vals):
-        return pristine.astype("int64")
-    return pristine.astype("float32")
+    return vec_form(pristine, form)
 
 
 def untouched(sig, what, arr, pristine, desc):
@@ -236,15 +274,15 @@ def untouched(sig, what, arr, pristine, desc):
                         f"was {pristine.tolist()}")
 
 
-def f_history(G, seq, w, parity, form, w_next):
+def f_history(G, seq, w, parity, form, w_next, wform="f8"):
     """One case = a short call history on ONE caller-owned point matrix and ONE weight array:
     mask form, then index form (same weights twice), then (if w_next) the mask form with positively rescaled weights.
     After every call the caller's arrays must be untouched; every answer is judged by the reference, which is what a
     fresh array would give."""
     pristine = G.fl[list(seq)]
     A = make_form(G, pristine, form)
-    wa = w.arr.copy()
-    desc = f"points {pristine.tolist()} ({form}, dtype {A.dtype}) wt {w.lst}"
+    wa = vec_form(w.arr, wform)
+    desc = f"points {pristine.tolist()} ({form}, dtype {A.dtype}) wt {w.lst} (dtype {wa.dtype})"
     mask = is_pareto_efficient(A, wa, True) if parity else is_pareto_efficient(A, wa)
     untouched(PF, "fitness", A, pristine, desc + " [mask form]")
     untouched(PF, "weight", wa, w.arr, desc + " [mask form]")
@@ -253,7 +291,7 @@ def f_history(G, seq, w, parity, form, w_next):
     untouched(PF, "weight", wa, w.arr, desc + " [index form]")
     nm, e = f_oracle(G, seq, w, mask, index)
     if w_next is not None:
-        wb = w_next.arr.copy()
+        wb = vec_form(w_next.arr, wform)
         mask3 = is_pareto_efficient(A, wb, True)
         untouched(PF, "fitness", A, pristine, desc + f" [then wt {w_next.lst}]")
         untouched(PF, "weight", wb, w_next.arr, desc + f" [then wt {w_next.lst}]")
@@ -318,18 +356,18 @@ def _vecs(G, w, e):
     return sorted([float(s * x) for s, x in zip(w.sg, G.pts[q])] for q in e)
 
 
-def f_case(ctx, G, seq, w, parity, form="f8C", w_next=None):
+def f_case(ctx, G, seq, w, parity, form="f8C", w_next=None, wform="f8"):
     """Run one (sequence, weight) case; returns (efficient vector set, number marked) or (None, None) on violation."""
     ctx.evaluations += 1
     ncall = 2 if w_next is None else 3
     try:
-        nm, e = f_history(G, seq, w, parity, form, w_next)
+        nm, e = f_history(G, seq, w, parity, form, w_next, wform)
         ctx.transitions += ncall
     except Exception:
         # slow path: let Ctx.guard classify (Violation or library exception on a valid input)
-        case = dict(layer="F", grid=G.name, seq=list(seq), wt=w.lst, parity=parity, form=form,
+        case = dict(layer="F", grid=G.name, seq=list(seq), wt=w.lst, parity=parity, form=form, wform=wform,
                     wt_next=None if w_next is None else w_next.lst, seed=ctx.seed)
-        ok = ctx.guard(lambda: f_history(G, seq, w, parity, form, w_next), case=case, sig_prefix=PF)
+        ok = ctx.guard(lambda: f_history(G, seq, w, parity, form, w_next, wform), case=case, sig_prefix=PF)
         assert not ok, "non-deterministic observation"
         return None, None
     ctx.traces += 1
@@ -368,13 +406,15 @@ def run_F(spec, ctx):
                 for pi, seq in enumerate(perms):
                     parity ^= 1
                     nform += 1
-                    form = FORMS[nform % 4]
+                    form = FORMS[nform % 6]
+                    wform = WFORMS[(nform // 6) % 4]
                     # "weights, then rescaled weights" on the same array: first order of every multiset
                     w_next = grp[(wi + 1) % len(grp)] if (pi == 0 and len(grp) > 1) else None
                     ctx.count("F:form:" + form)
+                    ctx.count("F:wform:" + wform)
                     if w_next is not None:
                         ctx.count("F:histories-with-rescaled-weights")
-                    e, nm = f_case(ctx, G, seq, w, parity, form, w_next)
+                    e, nm = f_case(ctx, G, seq, w, parity, form, w_next, wform)
                     if e is None:
                         continue
                     if nm < n:
@@ -410,7 +450,8 @@ def run_D(spec, ctx):
     for a, (p1, c1) in enumerate(st):
         for b, (p2, c2) in enumerate(st):
             case = dict(layer="D", k=k, o1=[float(x) for x in G.pts[p1]], cv1=float(c1),
-                        o2=[float(x) for x in G.pts[p2]], cv2=float(c2), npfloat=bool((a + b) % 2), seed=ctx.seed)
+                        o2=[float(x) for x in G.pts[p2]], cv2=float(c2), npfloat=bool((a + b) % 2),
+                        oform=WFORMS[(a + 3 * b) % 4], seed=ctx.seed)
             box = {}
             ctx.evaluations += 1
             ctx.state(bytes([ord("D"), k, a, b]))
@@ -448,11 +489,11 @@ def _st(G, s):
     return [[float(x) for x in G.pts[s[0]]], float(s[1])]
 
 
-def d_call(o1, cv1, o2, cv2, npfloat):
+def d_call(o1, cv1, o2, cv2, npfloat, oform="f8"):
     """dominates() called twice on the same argument objects: inputs untouched, same answer."""
     p1 = numpy.array(o1, dtype="float64")
     p2 = numpy.array(o2, dtype="float64")
-    a1, a2 = p1.copy(), p2.copy()
+    a1, a2 = vec_form(p1, oform), vec_form(p2, oform)
     c1, c2 = (numpy.float64(cv1), numpy.float64(cv2)) if npfloat else (float(cv1), float(cv2))
     r = dominates(a1, c1, a2, c2)
     desc = f"dominates({o1}, {cv1}, {o2}, {cv2})"
@@ -466,7 +507,7 @@ def d_call(o1, cv1, o2, cv2, npfloat):
 
 def d_case(ctx, case, box=None):
     o1, cv1, o2, cv2 = case["o1"], case["cv1"], case["o2"], case["cv2"]
-    r = d_call(o1, cv1, o2, cv2, case["npfloat"])
+    r = d_call(o1, cv1, o2, cv2, case["npfloat"], case.get("oform", "f8"))
     ctx.transitions += 2
     require(isinstance(r, (bool, numpy.bool_)), PD + "return-type", f"dominates returned {type(r).__name__}")
     if box is not None:
@@ -482,15 +523,17 @@ def d_case(ctx, case, box=None):
 
 
 # ---------------------------------------------------------------------------- layer T
-def _close_list(a, b):
-    """core.close for two short python lists (rel 1e-9, abs 1e-12, NaN == NaN)."""
+def _close_list(a, b, single=False):
+    """core.close for two short python lists (rel 1e-9, abs 1e-12, NaN == NaN); single=True: the library answered in
+    float32 because every argument was float32 — single-precision tolerance (abs 4e-6 on the [0, sqrt(nobj)] scale)."""
     if len(a) != len(b):
         return False
+    ab, rl = (4e-6, 4e-6) if single else (1e-12, 1e-9)
     for x, y in zip(a, b):
         if x != x or y != y:
             if not (x != x and y != y):
                 return False
-        elif not abs(x - y) <= 1e-12 + 1e-9 * abs(y):
+        elif not abs(x - y) <= ab + rl * abs(y):
             return False
     return True
 
@@ -511,22 +554,26 @@ def t_scaled(G, seq, sign):
     return rows, [sum(a * a for a in r) for r in rows], const
 
 
-def t_check(name, fn, G, seq, P, s, v, t, exp, const, sign, pref, form="f8C", repeat=False):
-    """One case = a call history on caller-owned arrays: the front, then the translated front with the SAME sign and
-    preference array objects, then (repeat) the first front again; inputs must be untouched after every call."""
-    desc = f"front {_pts(G, seq)} ({form}) signs {list(map(float, sign))} preference {list(map(float, pref))}"
-    P1 = make_form(G, P, form)
-    s1, v1 = s.copy(), v.copy()
+def t_check(name, fn, G, seq, P, s, v, tf, exp, const, sign, pref, form="f8C/f8/f8", repeat=False):
+    """One case = a call history on caller-owned arrays: the front, then the transformed (scaled + translated) front with
+    the SAME sign and preference array objects, then (repeat) the first front again; inputs must be untouched after every
+    call.  form = "<points>/<signs>/<preference>" dtype-layout combination."""
+    pf, sf, vf = form.split("/")
+    sc, tr = TRANSF[tf]
+    t = numpy.array([float(x) for x in tr[:G.k]])
+    desc = f"front {_pts(G, seq)} signs {list(map(float, sign))} preference {list(map(float, pref))} (argument forms {form})"
+    P1 = make_form(G, P, pf)
+    s1, v1 = vec_form(s, sf), vec_form(v, vf)
     d = fn(P1, s1, v1)
     untouched(name + ":", "point", P1, P, desc)
     untouched(name + ":", "sign/weight", s1, s, desc)
     untouched(name + ":", "preference", v1, v, desc)
-    Pt = P + t
-    P2 = Pt.copy() if form == "alt" else make_form(G, Pt, form)
+    Pt = P * sc + t                              # exact: every value is a small dyadic rational
+    P2 = make_form(G, Pt, pf) if pf in ("f8C", "f8F", "f8view") else Pt.copy()
     d2 = fn(P2, s1, v1)
-    untouched(name + ":", "point", P2, Pt, desc + " [translated]")
-    untouched(name + ":", "sign/weight", s1, s, desc + " [translated]")
-    untouched(name + ":", "preference", v1, v, desc + " [translated]")
+    untouched(name + ":", "point", P2, Pt, desc + " [transformed]")
+    untouched(name + ":", "sign/weight", s1, s, desc + " [transformed]")
+    untouched(name + ":", "preference", v1, v, desc + " [transformed]")
     if repeat:
         d3 = fn(P1, s1, v1)
         if not (isinstance(d3, numpy.ndarray) and isinstance(d, numpy.ndarray) and numpy.array_equal(d3, d, equal_nan=True)):
@@ -535,22 +582,25 @@ def t_check(name, fn, G, seq, P, s, v, t, exp, const, sign, pref, form="f8C", re
     if not (isinstance(d, numpy.ndarray) and d.shape == (len(seq),)):
         raise Violation(name + ":shape", f"returned {type(d).__name__} of shape {getattr(d, 'shape', None)} for {len(seq)} points")
     dl = d.tolist()
+    # single precision is all a caller can expect when one of the arguments is float32 (numpy then rounds intermediates to float32)
+    single = any(getattr(z, "dtype", None) == numpy.float32 for z in (P1, s1, v1, d, d2))
     if const and not all(math.isfinite(x) for x in dl):
         raise Violation(name + ":non-finite-constant-objective",
                         f"front {_pts(G, seq)} signs {list(map(float, sign))} preference {list(map(float, pref))}: objective(s) {const} "
                         f"are constant over the front and the distances are {dl} (expected finite {exp})")
-    if not _close_list(dl, exp):
+    if not _close_list(dl, exp, single):
         raise Violation(name + ":geometric-definition",
                         f"front {_pts(G, seq)} signs {list(map(float, sign))} preference {list(map(float, pref))}: distances {dl} "
                         f"differ from the geometric definition {exp} (sign-adjust, min-max scale each objective, "
                         f"orthogonal distance to the line through 0 along the preference vector)")
-    if not (isinstance(d2, numpy.ndarray) and _close_list(d2.tolist(), dl)):
+    if not (isinstance(d2, numpy.ndarray) and _close_list(d2.tolist(), dl, single)):
         raise Violation(name + ":translation-dependence",
-                        f"front {_pts(G, seq)} signs {list(map(float, sign))} preference {list(map(float, pref))}: distances {dl} "
-                        f"change to {d2.tolist()} when the front is translated by {t.tolist()}")
+                        f"{desc}: distances {dl} change to {getattr(d2, 'tolist', lambda: d2)()} when every objective of the front is "
+                        f"multiplied by {sc} and translated by {t.tolist()} (front becomes {Pt.tolist()}; min-max scaling makes the "
+                        f"distances invariant; tolerance 1e-9 in units of the scaled [0,1] spread)")
 
 
-def t_case(ctx, G, seq, sign, pref, tr, record=True, scaled=None, cache=None, form="f8C", repeat=False):
+def t_case(ctx, G, seq, sign, pref, tf, record=True, scaled=None, cache=None, form="f8C/f8/f8", repeat=False):
     """All three implementations on one (front, sign vector, preference vector), plain and translated by `tr`."""
     if scaled is None:
         scaled = t_scaled(G, seq, sign)
@@ -559,23 +609,22 @@ def t_case(ctx, G, seq, sign, pref, tr, record=True, scaled=None, cache=None, fo
     P = G.fl[list(seq)]
     s = numpy.array([float(x) for x in sign])
     v = numpy.array([float(x) for x in pref])
-    t = numpy.array([float(x) for x in tr[:G.k]])
     allok = True
     for name, fn in IMPLS.items():
         ctx.transitions += 3 if repeat else 2
         try:
-            t_check(name, fn, G, seq, P, s, v, t, exp, const, sign, pref, form, repeat)
+            t_check(name, fn, G, seq, P, s, v, tf, exp, const, sign, pref, form, repeat)
         except Violation as e:
             # count every failing case, keep the smallest case per signature (what Ctx.merge would keep anyway)
             allok = False
             case = dict(layer="T", grid=G.name, seq=list(seq), sign=[float(x) for x in sign], pref=[float(x) for x in pref],
-                        tr=[float(x) for x in tr], impl=name, form=form, repeat=repeat, seed=ctx.seed)
+                        tf=tf, impl=name, form=form, repeat=repeat, seed=ctx.seed)
             ctx.violation(e.sig, e.detail, case)
         except Exception:
             allok = False
             case = dict(layer="T", grid=G.name, seq=list(seq), sign=[float(x) for x in sign], pref=[float(x) for x in pref],
-                        tr=[float(x) for x in tr], impl=name, form=form, repeat=repeat, seed=ctx.seed)
-            ctx.guard(lambda: t_check(name, fn, G, seq, P, s, v, t, exp, const, sign, pref, form, repeat), case=case, sig_prefix=name + ":")
+                        tf=tf, impl=name, form=form, repeat=repeat, seed=ctx.seed)
+            ctx.guard(lambda: t_check(name, fn, G, seq, P, s, v, tf, exp, const, sign, pref, form, repeat), case=case, sig_prefix=name + ":")
     if record:
         key = tuple(round(x, 9) for x in exp)
         if cache is None or key not in cache:
@@ -617,11 +666,15 @@ def run_T(spec, ctx):
                 for pref in prefs:
                     cnt += 1
                     ctx.evaluations += 1
-                    form = FORMS[(cnt // 2) % 4]
+                    form = "/".join(ARGFORMS[(cnt // 8) % 8])
+                    tf = (cnt + cnt // 8) % 8
                     ctx.count("T:form:" + form)
+                    ctx.count(f"T:transformation:{tf}")
+                    if form == "i8/i8/i8" and _integral(G.fl[list(seq)]) and _integral(numpy.array([float(x) for x in pref])):
+                        ctx.count("T:all-integer-argument-cases")
                     if cnt % 3 == 0:
                         ctx.count("T:histories-with-a-repeated-call")
-                    ok, const = t_case(ctx, G, seq, sign, pref, TRANSL[cnt % 2], scaled=scaled, cache=ocache, form=form, repeat=(cnt % 3 == 0))
+                    ok, const = t_case(ctx, G, seq, sign, pref, tf, scaled=scaled, cache=ocache, form=form, repeat=(cnt % 3 == 0))
                     if ok:
                         ctx.traces += 1
                     ctx.count("T:calls-per-implementation", 3 if cnt % 3 == 0 else 2)
@@ -644,6 +697,118 @@ def run_T(spec, ctx):
                                         expected=R.geo_dist([G.pts[i] for i in seq], sign, pref)[0]))
 
 
+# ---------------------------------------------------------------------------- layer M (the predicate as USED by the memetic operator)
+PM = "pymoo_addon.MultiObjectiveStochasticHillClimberMutation.hillclimb:"
+M_B = [(3, 0, 4, 1, 2), (1, 4, 0, 3, 2), (2, 3, 1, 0, 4)]      # second-objective element codes (seed rotates)
+
+
+def m_tables(n, k, mode, g, h, seed):
+    """Objective / violation tables over all k-subsets of range(n): F is injective (first objective = sum of 2^i), so an
+    objective vector handed to dominates() identifies the candidate it belongs to."""
+    b = M_B[seed % 3]
+    F, CV, Gt, Ht = {}, {}, {}, {}
+    for sub in itertools.combinations(range(n), k):
+        F[sub] = (float(sum(2 ** i for i in sub)), float(sum(b[i] for i in sub)))
+        Gt[sub] = float(sum(g[i] for i in sub)) if "G" in mode else None
+        Ht[sub] = float(sum(h[i] for i in sub)) if "H" in mode else None
+        CV[sub] = (Gt[sub] or 0.0) + (Ht[sub] or 0.0)       # the operator's documented total: sum of G + sum of H (both >= 0 here)
+    return F, CV, Gt, Ht
+
+
+def m_case(ctx, case):
+    """One execution of hillclimb() on a tiny subset problem under one scripted answer vector of numpy.random.choice."""
+    import pybrops.opt.algo.pymoo_addon as PA
+    from pymoo.core.problem import Problem
+    n, k, mode, start, answers = case["n"], case["k"], case["mode"], case["start"], list(case["answers"])
+    F, CV, Gt, Ht = m_tables(n, k, mode, case["g"], case["h"], case["seed"])
+    visited, calls = [], []
+
+    class TableProblem(Problem):
+        def __init__(self):
+            super().__init__(n_var=k, n_obj=2, n_ieq_constr=int("G" in mode), n_eq_constr=int("H" in mode), xl=0, xu=n - 1)
+
+        def _evaluate(self, x, out, *a, **kw):
+            subs = [tuple(sorted(int(v) for v in r)) for r in x]
+            visited.extend(subs)
+            out["F"] = numpy.array([F[c] for c in subs])
+            if "G" in mode:
+                out["G"] = numpy.array([[Gt[c]] for c in subs])
+            if "H" in mode:
+                out["H"] = numpy.array([[Ht[c]] for c in subs])
+
+    real_dom, real_choice = PA.dominates, numpy.random.choice
+
+    def rec_dom(o1, c1, o2, c2):
+        calls.append((tuple(float(v) for v in o1), float(c1), tuple(float(v) for v in o2), float(c2)))
+        return real_dom(o1, c1, o2, c2)
+
+    def choice(a, *args, **kw):
+        require(not args and not kw and isinstance(a, int) and answers, PM + "unexpected-random-call", f"choice({a}, {args}, {kw})")
+        j = answers.pop(0)
+        assert 0 <= j < a, "scripted answer not reachable"
+        return j
+    setspace = numpy.arange(n)
+    x0 = numpy.array(start, dtype="int64")
+    mut = PA.MultiObjectiveStochasticHillClimberMutation(setspace=setspace, p_hillclimb=1.0)
+    PA.dominates, numpy.random.choice = rec_dom, choice
+    try:
+        out = mut.hillclimb(TableProblem(), x0)
+    finally:
+        PA.dominates, numpy.random.choice = real_dom, real_choice
+    ctx.transitions += 1
+    desc = (f"setspace range({n}), start {list(start)}, choice answers {case['answers']}, constraints '{mode or 'none'}' "
+            f"g {case['g']} h {case['h']}; candidates visited {visited}")
+    require(numpy.array_equal(x0, numpy.array(start)) and numpy.array_equal(setspace, numpy.arange(n)), PM + "input-mutated",
+            f"{desc}: the caller's chromosome / setspace was modified")
+    byF = {F[c]: c for c in F}
+    for o1, c1, o2, c2 in calls:
+        for o, c in ((o1, c1), (o2, c2)):
+            cand = byF.get(o)
+            require(cand is not None and cand in visited, PM + "dominates-argument-objectives",
+                    f"{desc}: dominates() received objective vector {o}, which is not the evaluation of a visited candidate")
+            require(c == CV[cand], PM + "dominates-argument-cv",
+                    f"{desc}: dominates() received constraint violation {c} for candidate {list(cand)} (objectives {o}) whose own "
+                    f"total violation is {CV[cand]} (G {Gt[cand]}, H {Ht[cand]})")
+    res = tuple(sorted(int(v) for v in numpy.asarray(out).ravel()))
+    require(len(res) == k and len(set(res)) == k and res in F and res in visited, PM + "returned-not-a-visited-subset",
+            f"{desc}: returned {numpy.asarray(out).tolist()}")
+    for c in visited:
+        require(not R.dominates_ref(F[c], CV[c], F[res], CV[res]), PM + "returned-leader-dominated",
+                f"{desc}: returned {list(res)} (objectives {F[res]}, violation {CV[res]}) is dominated, by the feasibility-first "
+                f"predicate with each candidate's own violation, by the visited candidate {list(c)} (objectives {F[c]}, violation {CV[c]})")
+    return res, len(calls), len(set(visited))
+
+
+def run_M(spec, ctx):
+    _, n, k, mode = spec
+    ctx.flag(f"M:n{n}:k{k}:{mode or 'none'}")
+    bits = list(itertools.product((0, 1), repeat=n))
+    gs = bits if "G" in mode else [(0,) * n]
+    hs = [tuple(2 * v for v in hb) for hb in bits] if "H" in mode else [(0,) * n]
+    if mode == "GH" and n == 5:
+        gs = [bits[i] for i in (0, 5, 18, 31)]
+    for g in gs:
+        for h in hs:
+            for start in itertools.permutations(range(n), k):
+                for answers in itertools.product(range(n - k), repeat=k):
+                    case = dict(layer="M", n=n, k=k, mode=mode, g=list(g), h=list(h), start=list(start), answers=list(answers), seed=ctx.seed)
+                    ctx.evaluations += 1
+                    ctx.state(("M", n, k, mode, g, h, start, answers))
+                    box = {}
+                    if ctx.guard(lambda: box.update(r=m_case(ctx, case)), case=case, sig_prefix=PM):
+                        ctx.traces += 1
+                        res, ncalls, nvis = box["r"]
+                        ctx.outcome(("M", n, k, res))
+                        ctx.count("M:dominates-calls-observed", ncalls)
+                        if tuple(sorted(start)) != res:
+                            ctx.count("M:executions-where-the-leader-changed")
+                        if nvis > 1 and ncalls:
+                            ctx.nontriv(("M", n, k, mode, g, h, start, answers))
+                    F, CV, Gt, Ht = m_tables(n, k, mode, g, h, ctx.seed)
+                    if "H" in mode and len({Ht[c] for c in F}) > 1:
+                        ctx.count("M:executions-with-H-varying-between-subsets")
+
+
 # ---------------------------------------------------------------------------- driver
 def run_shard(spec, ctx):
     F, Tl = _plan(ctx.tier)
@@ -652,7 +817,9 @@ def run_shard(spec, ctx):
         "transform_layers(grid,npoints)": [list(x) for x in Tl],
         "grid_values_3": list(GRID3[ctx.seed % 3]), "grid_values_4": list(GRID4[ctx.seed % 3]),
         "weight_magnitudes": list(MAGS[ctx.seed % 3]), "preference_components": list(PREFS[ctx.seed % 3]),
-        "cv_alphabet": list(CVS[ctx.seed % 3]), "translations": [list(t) for t in TRANSL],
+        "cv_alphabet": list(CVS[ctx.seed % 3]), "front_transformations(scale,translation)": [[sc, list(t)] for sc, t in TRANSF],
+        "argument_forms(points/signs/preference)": ["/".join(a) for a in ARGFORMS], "filter_point_forms": list(FORMS),
+        "weight_vector_forms": list(WFORMS),
         "dominates_dims": [2, 3],
     })
     if spec[0] == "F":
@@ -671,6 +838,8 @@ def run_shard(spec, ctx):
         run_D(spec, ctx)
     elif spec[0] == "T":
         run_T(spec, ctx)
+    elif spec[0] == "M":
+        run_M(spec, ctx)
     else:
         raise ValueError(spec)
 
@@ -686,6 +855,10 @@ def finalize(ctx, tier, seed):
               "T:minimised-objective", "T:single-point-front", "T:duplicate-points"):
         assert f in ctx.flags, f
     c = ctx.counters
+    for n_, k_ in ((3, 1), (3, 2), (4, 1), (4, 2), (5, 1), (5, 2)):
+        for mode in ("none", "G", "H", "GH"):
+            assert f"M:n{n_}:k{k_}:{mode}" in ctx.flags, (n_, k_, mode)
+    assert c.get("M:executions-with-H-varying-between-subsets", 0) > 1000
     assert c.get("F:cases-with-a-dominated-point(reference)", 0) > 1000, c.get("F:cases-with-a-dominated-point(reference)")
     assert c.get("F:multisets-with-several-orders-compared", 0) > 100
     assert c.get("F:rescaling-groups-compared", 0) > 100
@@ -698,7 +871,14 @@ def finalize(ctx, tier, seed):
             assert got == want, (a, b, got)      # counted by the reference's answer: both answers are demanded of the library
     assert c.get("T:calls-per-implementation", 0) > 1000
     for f in FORMS:
-        assert c.get("F:form:" + f, 0) > 1000 and c.get("T:form:" + f, 0) > 100, f
+        assert c.get("F:form:" + f, 0) > 1000, f
+    for f in WFORMS:
+        assert c.get("F:wform:" + f, 0) > 1000, f
+    for a_ in ARGFORMS:
+        assert c.get("T:form:" + "/".join(a_), 0) > 100, a_
+    for i in range(len(TRANSF)):
+        assert c.get(f"T:transformation:{i}", 0) > 100, i
+    assert c.get("T:all-integer-argument-cases", 0) > 100, c.get("T:all-integer-argument-cases")
     assert c.get("F:histories-with-rescaled-weights", 0) > 1000 and c.get("T:histories-with-a-repeated-call", 0) > 1000
     from ..core import load_known, match_known
     known = load_known()
@@ -722,7 +902,7 @@ def replay(case, ctx):
         G = Grid.get(case["grid"], seed)
         wn = case.get("wt_next")
         f_case(ctx, G, tuple(case["seq"]), W(G, tuple(Q(x) for x in case["wt"])), case["parity"], case.get("form", "f8C"),
-               None if wn is None else W(G, tuple(Q(x) for x in wn)))
+               None if wn is None else W(G, tuple(Q(x) for x in wn)), case.get("wform", "f8"))
     elif lay == "F2":
         G = Grid.get(case["grid"], seed)
         e1, _ = f_case(ctx, G, tuple(case["seq"]), W(G, tuple(Q(x) for x in case["wt"])), 1)
@@ -739,6 +919,8 @@ def replay(case, ctx):
             ctx.violation(PD + "not-asymmetric", f"both directions true for {sts}", case)
         if len(sts) == 3 and r[0][1] and r[1][2] and not r[0][2]:
             ctx.violation(PD + "not-transitive", f"x>y, y>z, not x>z for {sts}", case)
+    elif lay == "M":
+        ctx.guard(lambda: m_case(ctx, case), case=case, sig_prefix=PM)
     elif lay == "T":
         G = Grid.get(case["grid"], seed)
         global IMPLS
@@ -746,7 +928,7 @@ def replay(case, ctx):
         IMPLS = {case["impl"]: keep[case["impl"]]}
         try:
             t_case(ctx, G, tuple(case["seq"]), tuple(int(x) for x in case["sign"]), tuple(Q(x) for x in case["pref"]),
-                   tuple(Q(x) for x in case["tr"]), record=False, form=case.get("form", "f8C"), repeat=case.get("repeat", False))
+                   case["tf"], record=False, form=case.get("form", "f8C/f8/f8"), repeat=case.get("repeat", False))
         finally:
             IMPLS = keep
     else:
